@@ -624,10 +624,14 @@ def _expr_chunk(arg) -> dict:
 
 
 def expr_runs(tier: str, seed: int) -> list[dict]:
+    """MC_Expr configurations.  Levels 0-1 are complete in every run.
+    quick   : level 2 = spines over the core leaves, one checksum class of 20 (picked by the seed).
+    thorough: run A - level 2 complete for spines over the core leaves, level 3 = one class of 1200;
+              runs B - level 2 for ALL level-1 spines, two checksum classes of 8 (rotating with the seed)."""
     if tier == "quick":
-        return [{"MaxDepth": 2, "FullFrom": 1, "SampleMod": 10, "Seed": seed}]
-    runs = [{"MaxDepth": 2, "FullFrom": 2, "SampleMod": 8, "Seed": k} for k in range(8)]
-    runs.append({"MaxDepth": 3, "FullFrom": 1, "SampleMod": 300, "Seed": seed})
+        return [{"MaxDepth": 2, "FullFrom": 1, "SampleMod": 20, "Seed": seed}]
+    runs = [{"MaxDepth": 3, "FullFrom": 1, "SampleMod": 1200, "Seed": seed}]
+    runs += [{"MaxDepth": 2, "FullFrom": 2, "SampleMod": 8, "Seed": (seed + k) % 8} for k in range(2)]
     return runs
 
 
@@ -648,7 +652,8 @@ NEED_CLASSES = ["name:value", "const:value", "attr:value", "sub:value", "sub:E.u
                 "un:E.unsupported_unary", "if:value", "list:value", "tuple:value", "unsup:E.unsupported_node"]
 
 
-def expr_part(tier: str, seed: int, rep: evidence.Reporter, pool, corrupt: bool = False) -> dict:
+def expr_part(tier: str, seed: int, rep: evidence.Reporter, pool, first=None) -> dict:
+    """`first`: future of the already started MC_Expr run for expr_runs(...)[0] (overlaps the graph part)."""
     runs = expr_runs(tier, seed)
     tot = {"asts": 0, "cases": 0, "engine_cases": 0, "mc_states": 0, "mc_transitions": 0, "mc_wall_s": 0.0,
            "grow_states": 0, "replay_wall_s": 0.0}
@@ -660,7 +665,7 @@ def expr_part(tier: str, seed: int, rep: evidence.Reporter, pool, corrupt: bool 
     ctxs_enc = None
     engine_every = 7 if tier == "quick" else 11
     with ThreadPoolExecutor(max_workers=1) as ex:
-        fut = ex.submit(_run_mc_expr, runs[0])
+        fut = first if first is not None else ex.submit(_run_mc_expr, runs[0])
         for k, consts in enumerate(runs):
             r = fut.result()
             if k + 1 < len(runs):
@@ -1033,11 +1038,12 @@ def run(pid: str, tier: str, seed: int) -> int:
     corrupt = _CORRUPT
     ctxm = get_context("fork")
     cov: dict = {}
-    with ctxm.Pool(NPROC) as pool:
+    with ctxm.Pool(NPROC) as pool, ThreadPoolExecutor(max_workers=1) as early:
+        first = early.submit(_run_mc_expr, expr_runs(tier, seed)[0])     # MC_Expr runs while the graphs are replayed
         g = graph_part(tier, seed, rep, pool, corrupt == "graph")
         cov["graph"] = g
         _dbg("graph part done")
-        e = expr_part(tier, seed, rep, pool, corrupt == "expr")
+        e = expr_part(tier, seed, rep, pool, first)
         suspects = e.pop("_suspects", [])
         lookup, ctx2 = e.pop("_lookup", {}), e.pop("_ctx2", {})
         cov["expr"] = e
